@@ -5,6 +5,7 @@ import PdshVerif.Opt.WcollSources
 import PdshVerif.Opt.WcollRefine
 import PdshVerif.Opt.WcollPaths
 import PdshVerif.Opt.WcollAssemble
+import PdshVerif.Opt.WcollSplit
 
 /-!
 # C10  The target list is assembled faithfully from every source
@@ -88,6 +89,27 @@ theorem include_terminates (mode : LineMode) (fs : FS) (stdin : Str) (opts : Lis
 theorem included_once (mode : LineMode) (fs : FS) (dirs : List Str) (content : Str) :
     (readStream mode fs dirs content).opened.Nodup :=
   (readStream_step mode fs dirs content).once
+
+/-- the guard keys on the RESOLVED path, not on the spelling: whatever an include line calls a file
+(`B`, `./B`, `/abs/dir/B`), once its resolved path is in the cache the file is skipped with one
+warning and nothing else changes -/
+theorem second_spelling_skipped (mode : LineMode) (fs : FS) (dirs : List Str) (k : Nat) (f fq : Str)
+    (c : Ctx) (h : resolve fs dirs f = some fq) (hc : fq ∈ c.cache) :
+    readFile mode fs dirs (k + 1) f c = { c with nwarn := c.nwarn + 1 } := by
+  simp [readFile, h, hc]
+
+/-- two spellings of the same file: a bare name and the same name written out with the directory of
+the command-line file resolve to the same path (so `included_once` — no RESOLVED path is opened
+twice — covers every spelling) -/
+theorem spellings_resolve_alike (fs : FS) (d f : Str) (hb : isExplicit f = false)
+    (he : isExplicit (d ++ '/' :: f) = true) (hr : canRead fs (d ++ '/' :: f) = true)
+    (hlen : (d ++ '/' :: f).length < PATHBUF - 1) :
+    resolve fs [d] f = some (d ++ '/' :: f) ∧ resolve fs [d] (d ++ '/' :: f) = some (d ++ '/' :: f) := by
+  constructor
+  · have : ¬ (d ++ '/' :: f).length ≥ PATHBUF := by simp only [PATHBUF] at hlen ⊢; omega
+    simp only [resolve, hb, Bool.false_eq_true, if_false, pathLookup, this, hr, if_true]
+  · simp only [resolve, he, if_true]
+    rw [List.take_of_length_le (by omega)]
 
 /-- ... and what was opened is exactly what went into the include cache by way of a successful open -/
 theorem opened_in_cache (mode : LineMode) (fs : FS) (dirs : List Str) (content : Str) :
@@ -193,6 +215,37 @@ theorem file_source_spec_partial (mode : LineMode) (fs : FS) (stdin file : Str) 
     (readWcoll mode fs stdin file).1.fatal = (WcollSpec.fileHosts fs file).error :=
   file_source_spec_partial' mode fs stdin file h1 (search_path_of_plain file hp hc) hfs
 
+/-- WHAT KEEPS `file_hosts_spec_partial` PARTIAL, and why it cannot go away.
+(1) line length: only for the unchanged `fgets` reader (`fgets_splits`); for the repaired reader
+    `mode = .whole` the hypothesis is vacuous — the statement is the full one.
+(2) a line that starts with `#include` must be exactly `#include` blanks+ F blanks*, without CR:
+    forced by the code, which is more liberal than the property text — three witnesses below on a
+    two-file system (each is also run against the real pdsh by checks/c10.py, stream `malformed`,
+    where the real binary agrees with the reader side):
+    `#includeB` (no blank) is honoured by the reader; `#include B C` costs a warning;
+    `#include B<CR>` (a CRLF file) includes B although the name as written is `B<CR>`.
+    Every other line — host expressions, comments, blanks, CR included — is unrestricted.
+(3) include names must fit `fq_path[4096]` (the code truncates / fails beyond). -/
+theorem include_line_restriction_forced :
+    let fs : FS := [⟨"d/A".toList, true, "#includeB\n".toList⟩, ⟨"d/B".toList, true, "b1\n".toList⟩]
+    let fs2 : FS := [⟨"d/A".toList, true, "#include B C\n".toList⟩, ⟨"d/B".toList, true, "b1\n".toList⟩]
+    let fs3 : FS := [⟨"d/A".toList, true, "#include B\r\n".toList⟩, ⟨"d/B".toList, true, "b1\n".toList⟩]
+    -- no blank after #include: the reader includes B, the specification sees a comment
+    ((readWcoll .whole fs [] "d/A".toList).1.exprs = ["b1".toList] ∧
+      (WcollSpec.fileHosts fs "d/A".toList).exprs = []) ∧
+    -- a second token: one warning from the reader, none in the specification
+    ((readWcoll .whole fs2 [] "d/A".toList).1.nwarn = 1 ∧
+      (WcollSpec.fileHosts fs2 "d/A".toList).skipped = 0) ∧
+    -- CR before the newline: the reader includes B, the specification looks for `B<CR>` (an error)
+    ((readWcoll .whole fs3 [] "d/A".toList).1.exprs = ["b1".toList] ∧
+      (readWcoll .whole fs3 [] "d/A".toList).1.fatal = false ∧
+      (WcollSpec.fileHosts fs3 "d/A".toList).error = true) := by
+  decide
+
+/-- ... while CR in an ordinary line is inside the theorem's domain: reader and specification both
+hand `foo<CR>` to the parser (xstrcln strips blank, tab and newline only) -/
+example : LineOK "d".toList "foo\r".toList := ⟨by decide, by decide, by decide⟩
+
 /-- `get_file_path`: for every plain path (it does not end in a slash, its last slash is not
 doubled) glibc's `dirname` is the directory the specification means, and — when that directory holds
 no colon — the reader's search path is exactly that one directory -/
@@ -217,6 +270,33 @@ theorem assemble_refines (mode : LineMode) (fs : FS) (hcap : ∀ n, mode.cap = s
       (assembleOpts mode fs stdin opts env).exprs = (WcollSpec.assemble fs stdin srcs env).exprs ∧
       (assembleOpts mode fs stdin opts env).excl = (WcollSpec.assemble fs stdin srcs env).excluded) :=
   assembleOpts_refines mode fs hcap stdin hstd opts srcs hargs hok env henv
+
+/-- `list_split (",", optarg)` (split.c): a comma-joined list of arguments — each non-empty, without
+a comma outside brackets, brackets balanced (`pieceOK`, decidable) — is split back into exactly
+those arguments; commas inside brackets (`n[1,3]`) do not split -/
+theorem command_line_split (ps : List Str) (h : ∀ p ∈ ps, pieceOK p = true) :
+    listSplit [','] (joinComma ps) = ps :=
+  listSplit_join ps h
+
+/-- hence the hypothesis `opts.flatMap optArgs = srcs.map argOf` of `assemble_refines` holds for
+every command line written as `-w a,b,c -w d ...` over the arguments of its sources (an exclusion
+file inside such a list is `-^F`; `-x ^F,^G` is `optArgs_x_join`) -/
+theorem rendered_options_stand_for_sources (groups : List (List WcollSpec.Source))
+    (hok : ∀ ss ∈ groups, ∀ s ∈ ss, pieceOK (argOf s) = true)
+    (hd : ∀ ss ∈ groups, joinComma (ss.map argOf) ≠ ['-']) :
+    (groups.map fun ss => Opt.w (joinComma (ss.map argOf))).flatMap optArgs =
+      groups.flatten.map argOf := by
+  induction groups with
+  | nil => rfl
+  | cons ss rest ih =>
+    simp only [List.map_cons, List.flatMap_cons, List.flatten_cons, List.map_append]
+    rw [ih (fun x hx => hok x (by simp [hx])) (fun x hx => hd x (by simp [hx])),
+      optArgs_w_join _ (fun p hp => by
+        obtain ⟨s, hs, rfl⟩ := List.mem_map.mp hp
+        exact hok ss (by simp) s hs) (hd ss (by simp))]
+
+example : pieceOK "v[1,4]z".toList = true ∧ pieceOK "^t/A".toList = true ∧ pieceOK "-^t/B".toList = true ∧
+    pieceOK "a,b".toList = false ∧ pieceOK "n[1".toList = false := by decide
 
 /-- `every ^file`: an exclusion file (`-x ^F`, or `-^F` inside a `-w` list) goes through the very
 same reader as a target file; its expressions go to the exclusion list, the target list is
